@@ -64,9 +64,9 @@ FEATURES: dict[str, tuple[tuple[str, ...], object, object]] = {
     "STICKY_ECHO_HEADERS_HEADER": (("enable_sticky", "sticky_echo_headers"), lambda e: bool(e["enable_sticky"]) and bool(e["sticky_echo_headers"]), lambda e: ", ".join(e["sticky_echo_headers"].keys())),
 }
 DOMAIN: dict[str, tuple[object, ...]] = {
-    "max_request_bytes": (None, 1001),
-    "max_response_bytes": (None, 2002),
-    "max_externalized_response_bytes": (None, 3003),
+    "max_request_bytes": (None, 0, 1001),
+    "max_response_bytes": (None, 0, 2002),
+    "max_externalized_response_bytes": (None, 0, 3003),
     "upload_url_provider": (None, SENT),
     "max_upload_bytes": (None, 4004),
     "proxy_proof_required": (False, True),
@@ -148,9 +148,75 @@ def _stores(fi: FunctionInfo, var: str) -> list[ast.Assign]:
     return out
 
 
+def _unroll_literal_loops(fi: FunctionInfo) -> FunctionInfo:
+    """`for a, b in ((A1, B1), (A2, B2)): body` over a literal display is straight-line code repeated per row: rewrite it
+    that way (names substituted by the row's expressions) so that the per-store path analysis below applies unchanged.
+    Loops containing break/continue/else, or whose targets are rebound in the body, are left alone."""
+    import copy
+    import dataclasses
+
+    class Sub(ast.NodeTransformer):
+        def __init__(self, m: dict[str, ast.expr]) -> None:
+            self.m = m
+
+        def visit_Name(self, n: ast.Name) -> ast.AST:  # noqa: N802
+            if isinstance(n.ctx, ast.Load) and n.id in self.m:
+                return ast.copy_location(copy.deepcopy(self.m[n.id]), n)
+            return n
+
+    changed = False
+
+    class Unroll(ast.NodeTransformer):
+        def visit_FunctionDef(self, n: ast.FunctionDef) -> ast.AST:  # noqa: N802
+            if n is not root:
+                return n
+            self.generic_visit(n)
+            return n
+
+        def visit_For(self, node: ast.For) -> object:  # noqa: N802
+            nonlocal changed
+            self.generic_visit(node)
+            it, tg = node.iter, node.target
+            if node.orelse or not isinstance(it, (ast.Tuple, ast.List)) or not it.elts:
+                return node
+            tnames = [tg] if isinstance(tg, ast.Name) else list(tg.elts) if isinstance(tg, (ast.Tuple, ast.List)) else []
+            if not tnames or not all(isinstance(t, ast.Name) for t in tnames):
+                return node
+            ids = {t.id for t in tnames}  # type: ignore[union-attr]
+            for st in node.body:
+                for x in ast.walk(st):
+                    if isinstance(x, (ast.Break, ast.Continue)) or (isinstance(x, ast.Name) and isinstance(x.ctx, ast.Store) and x.id in ids):
+                        return node
+            rows: list[list[ast.expr]] = []
+            for e in it.elts:
+                if isinstance(tg, ast.Name):
+                    rows.append([e])
+                elif isinstance(e, (ast.Tuple, ast.List)) and len(e.elts) == len(tnames):
+                    rows.append(list(e.elts))
+                else:
+                    return node
+            out: list[ast.stmt] = []
+            for row in rows:
+                m = {t.id: v for t, v in zip(tnames, row)}  # type: ignore[union-attr]
+                for st in node.body:
+                    out.append(ast.fix_missing_locations(Sub(m).visit(copy.deepcopy(st))))
+            changed = True
+            return out
+
+    root = copy.deepcopy(fi.node)
+    new = Unroll().visit(root)
+    if not changed:
+        return fi
+    _KEEP.append(new)
+    return dataclasses.replace(fi, node=new)
+
+
+_KEEP: list[ast.AST] = []  # keeps rewritten function nodes alive (cfg_of caches by node identity)
+
+
 # ---------------------------------------------------------------------------------------------
 def _check_factory(ctx: Ctx) -> dict[str, str]:
-    fi = ctx.fn(FACTORY)
+    fi = _unroll_literal_loops(ctx.fn(FACTORY))
     cfg = cfg_of(fi.node)
     mw_cls = ctx.repo.cls(MW)
     aliases = {loc for loc, imp in fi.module.imports.items() if imp[0] == "name" and imp[-1] == mw_cls.name} | ({mw_cls.name} if mw_cls.name in fi.module.classes else set())
